@@ -145,7 +145,7 @@ pub fn check(src0: &str, s0: &Spelling, src: &str, s: &Spelling) -> Option<(Stri
 
 fn spellings(tier: Tier) -> Vec<Spelling> {
     let (dn, nn) = match tier {
-        Tier::Quick => (vec![0usize, 1, 3, 5, 6, 8, 9, 11], 2),
+        Tier::Quick => (vec![0usize, 1, 3, 5, 6, 8, 9, 11, 13, 14], 2),
         Tier::Thorough => ((0..gen::POOL.len()).collect(), NAME_POOL.len()),
     };
     let mut v = vec![];
@@ -214,6 +214,7 @@ pub fn run(r: &Report) {
             blank: true,
             rich: false,
             short_unwrap: false,
+            shared_lines: false,
         },
         Tier::Thorough => AstParams {
             max_lines: 7,
@@ -227,6 +228,7 @@ pub fn run(r: &Report) {
             blank: true,
             rich: false,
             short_unwrap: false,
+            shared_lines: false,
         },
     };
     let sps = spellings(r.tier);
